@@ -73,7 +73,7 @@ def find_path(rows, *frags):
 def r031(ctx, rid):
     """Collector transition table + body accumulation (R03.1, R03.3)."""
     with ctx.rule(rid, 'collector automaton: method -> header -> body*; out-of-sequence and overrun rejected; Done resets, NeedMore keeps kind', floor=30) as r:
-        FU = 'errors::FrameUnexpectedSnafu::fail(errors::FrameUnexpectedSnafu)'
+        FU = 'Err(errors::Error::FrameUnexpected)'
         # start of content
         for kind, fnn in KINDS:
             fnp = CC + 'ContentCollector::' + fnn
@@ -260,7 +260,7 @@ def r035(ctx, rid):
             rt = a.calls('try_send_return')
             if not r.check('%s:completion-sends' % variant, len(dl) == 1 and len(gt) == 1 and len(rt) == 1, site, built=a.summary()):
                 continue
-            exp_tx = '<std::option::Option<T> as snafu::OptionExt<T>>::context(std::collections::HashMap::get(%s.consumers, %s.Delivery.0.0), errors::UnknownConsumerTagSnafu{channel_id: frame.%s.0, consumer_tag: %s.Delivery.0.0})?' % (slot, res, variant, res)
+            exp_tx = 'std::option::Option::ok_or(std::collections::HashMap::get(%s.consumers, %s.Delivery.0.0), errors::Error::UnknownConsumerTag{channel_id: frame.%s.0, consumer_tag: %s.Delivery.0.0})?' % (slot, res, variant, res)
             r.eq('%s:delivery:consumer' % variant, S.show(dl[0].args[0]), exp_tx, ctx.site(D.PROCESS, dl[0].node),
                  why='the delivery goes to the consumer registered under the collected tag on this channel; unknown tag -> UnknownConsumerTag')
             r.eq('%s:delivery:message' % variant, S.show(dl[0].args[1]), 'consumer::ConsumerMessage::Delivery(%s.Delivery.0.1)' % res, ctx.site(D.PROCESS, dl[0].node))
